@@ -210,7 +210,7 @@ func (d *definition) Recover(fn func() error) error {
 		defer func() {
 			if panicValue := recover(); panicValue != nil {
 				cause := newPanicError(panicValue)
-				err = newError(d, cause, fmt.Sprintf("panic: %s", cause.Error()), false, callersSkip+2)
+				err = newError(d, cause, fmt.Sprintf("panic: %s", cause.Error()), false, callersSkip+1)
 			}
 		}()
 		err = fn()
